@@ -91,7 +91,22 @@ func ruleBrkSlide(w *World, r *Report) {
 		}
 		if dependsOn(st.Val, isInterval) {
 			r.ok("BRK-SLIDE", key, w.PosOf(in), "the new clock is computed from the tick resolution (whole ticks)")
-		} else if controlDependsOn(fn, in, isInterval) && controlDependsOn(fn, in, isCounts) {
+		} else if controlDependsOn(fn, in, isInterval) && controlDependsOnIf(fn, in, func(ifi *ssa.If) bool {
+			// a comparison one of whose operands is len(b.counts) itself (not merely a value that was capped by it)
+			bo, ok := ifi.Cond.(*ssa.BinOp)
+			if !ok {
+				return false
+			}
+			isLenCounts := func(v ssa.Value) bool {
+				c, ok := v.(*ssa.Call)
+				if !ok {
+					return false
+				}
+				bi, ok := c.Common().Value.(*ssa.Builtin)
+				return ok && bi.Name() == "len" && len(c.Call.Args) == 1 && dependsOn(c.Call.Args[0], isCounts)
+			}
+			return (isLenCounts(bo.X) && dependsOn(bo.Y, isInterval)) || (isLenCounts(bo.Y) && dependsOn(bo.X, isInterval))
+		}) {
 			r.ok("BRK-SLIDE", key, w.PosOf(in), "a clock value that drops the remainder is stored only under a test of the shift against the window length (everything has aged out)")
 		} else if controlDependsOn(fn, in, isInterval) {
 			r.violation("BRK-SLIDE", key, w.PosOf(in), "slide stores a clock value that drops the sub-tick remainder although part of the window is still occupied (not under a test against the window length): every shift loses up to one tick, and a full breaker polled steadily needs up to twice the interval to admit again")
